@@ -13,6 +13,7 @@ package main
 import (
 	"encoding/json"
 	"fmt"
+	"github.com/google/badwolf/triple/predicate"
 	"strings"
 	"sync"
 	"sync/atomic"
@@ -98,7 +99,12 @@ func tables() []tbl {
 	tn.atoms = []*bqlm.Expr{cmp("?v", "=", N("/u", "a")), cmp("?v", "=", N("/t", "a")), cmp("?v", "=", N("/u", "zz")), cmp("?v", "=", X("/u<a>")), cmp("?v", "=", P("p1")), cmp("?s", "=", B("?s")), cmp("?v", "=", B("?s"))}
 	out = append(out, tn)
 	tp := tbl{name: "predicate", where: one("kp"), proj: sv}
-	tp.atoms = []*bqlm.Expr{cmp("?v", "=", P("p3")), cmp("?v", "=", P("p9")), cmp("?v", "=", N("/u", "a")), cmp("?v", "=", B("?v"))}
+	pOther := func(p *predicate.Predicate) bqlm.Operand {
+		return bqlm.Operand{Text: p.String(), V: bqlm.Val{Kind: 'P', P: p}}
+	}
+	tp.atoms = []*bqlm.Expr{cmp("?v", "=", P("p3")), cmp("?v", "=", P("p9")), cmp("?v", "=", N("/u", "a")), cmp("?v", "=", B("?v")),
+		// the same id as a stored value, in the other kind / at another instant / the same instant in another zone
+		cmp("?v", "=", pOther(model.PI("p3"))), cmp("?v", "=", pOther(model.PT("p3", model.T2))), cmp("?v", "=", pOther(model.PT("p3", model.T1.In(zoneOf(3)))))}
 	out = append(out, tp)
 	// extracted ids and types compare with text lexicographically
 	ti := tbl{name: "id-type", where: []bqlm.Clause{cl(bt("?s"), pc("kn"), bqlm.Term{Kind: bqlm.Bind, Name: "?v", IDAlias: "?id", TypeAlias: "?ty"})}, proj: []bqlm.Proj{pj("?s"), pj("?id"), pj("?ty")}}
